@@ -208,7 +208,10 @@ class RemoteProxy(BaseProxy):
             await self._channel.close()
         except ConnectionError:
             pass  # The connection was broken already.
-        await self._reader_task
+        if asyncio.current_task() is not self._reader_task:
+            # (_handle_remote_requests calls this method itself when
+            # something goes wrong; a task cannot await itself.)
+            await self._reader_task
 
 
 def extract_version(meta: Meta) -> List[int]:
